@@ -53,3 +53,9 @@ Definition dollar_indices_fast (q : bytes) : list Z :=
 Definition max_index_fast (q : bytes) : Z := fold_left Z.max (dollar_indices_fast q) 0%Z.
 Definition has_dollar_index_fast (q : bytes) : bool :=
   match dollar_indices_fast q with [] => false | _ => true end.
+
+(* allocation budget, in bytes, for one call on a query of the given length: the
+   result slice grows by appending one 4-byte OID at a time (at most
+   count_qmark q + 65535 appends, Props/C20.v C20_work), Go's append at most doubles the
+   capacity per growth, and the regular-expression matcher allocates per match *)
+Definition alloc_budget (q : bytes) : Z := 8388608 + 1024 * lenZ q.
